@@ -725,7 +725,43 @@ func checkCompileDeterminism(c *core.Ctx) {
 		"internal/engine/wazevo/backend/isa/amd64", "internal/engine/wazevo/backend/isa/arm64", "internal/engine/wazevo/wazevoapi"}
 	var sites []string
 	n := 0
-	for _, fn := range moduleFns(c, pkgs...) {
+	// the compile path: what Engine.CompileModule reaches over the VTA call graph, within these packages
+	all := moduleFns(c, pkgs...)
+	inScope := map[*ssa.Function]bool{}
+	for _, fn := range all {
+		inScope[fn] = true
+	}
+	cg := c.VTA()
+	onPath := map[*ssa.Function]bool{}
+	var work []*ssa.Function
+	for _, fn := range all {
+		if fn.Name() == "CompileModule" && fn.Parent() == nil {
+			onPath[fn] = true
+			work = append(work, fn)
+		}
+	}
+	if len(work) == 0 {
+		c.Undecided("R13.4", "Engine.CompileModule", 0, "compile entry point not found")
+	}
+	for len(work) > 0 {
+		fn := work[0]
+		work = work[1:]
+		var next []*ssa.Function
+		if nd := cg.Nodes[fn]; nd != nil {
+			for _, e := range nd.Out {
+				next = append(next, e.Callee.Func)
+			}
+		}
+		next = append(next, fn.AnonFuncs...)
+		for _, g := range next {
+			if inScope[g] && !onPath[g] {
+				onPath[g] = true
+				work = append(work, g)
+			}
+		}
+	}
+	c.Count("compile_path_functions", len(onPath))
+	for _, fn := range all {
 		for _, b := range fn.Blocks {
 			for _, in := range b.Instrs {
 				r, ok := in.(*ssa.Range)
@@ -735,8 +771,14 @@ func checkCompileDeterminism(c *core.Ctx) {
 				if _, isMap := r.X.Type().Underlying().(*types.Map); !isMap {
 					continue
 				}
-				n++
 				name := core.SSAFuncName(fn)
+				if !onPath[fn] {
+					if _, listed := c13MapRanges[name]; !listed {
+						c.Notef("map range in %s is not reachable from Engine.CompileModule: not on the compile path", name)
+						continue
+					}
+				}
+				n++
 				if why, ok := c13MapRanges[name]; ok {
 					if strings.Contains(why, "sort.Slice verified") && !callsSort(fn) {
 						sites = append(sites, name+" at "+c.Pos(r.Pos())+" (the sort that made this iteration order-insensitive is gone)")
